@@ -28,6 +28,16 @@ def check_case(ctx, cs):
         ctx.violate(site, tg, small, {"field": bad, "expected_size": exp["size"], "got_size": list(obj._control_points_size),
                                       "expected_kv": [fl(frv(U)) for U in exp["kv"]], "got_kv": [list(U) for U in obj._knot_vector]})
         return
+    # the same history on the shape in a very small and in a very large unit (refinement commutes with uniform scaling)
+    for label, conj in (("tiny", 2.0 ** -40), ("huge", 2.0 ** 30)):
+        try:
+            o2, _ = replay_history(sh0, hist, "operations", conj=conj)
+        except Exception as e:
+            ctx.violate(site, tg + ["coordinates=" + label, "raises"], small, {"exception": repr(e)[:300]})
+            continue
+        bad = same_def(project(o2), exp)
+        if bad:
+            ctx.violate(site, tg + ["coordinates=" + label], small, {"field": bad})
     try:
         ref = build(sh0)
         pd = len(sh0["deg"])
